@@ -126,7 +126,7 @@ def main(argv):
     specs = [
         {'harness': 'c09_best_encoding_24', 'key': 'C10/best_encoding', 'confirm': kconfirm.best_encoding, 'raw': True,
          'symbolic': 'buf: [u8; 24], len <= 24'},
-        {'harness': 'c07_gf_multiply_kernel', 'key': 'C10/division', 'confirm': None, 'symbolic': 'a: u8, e < 255'},
+        {'harness': 'c07_gf_multiply_kernel', 'key': 'C10/division', 'confirm': kconfirm.gf_kernel, 'symbolic': 'a: u8, e < 255'},
     ]
     for (m, mn) in ((0, 'numeric'), (2, 'byte')):
         l = chk.rng.randrange(4)
